@@ -342,6 +342,23 @@ func (vc *VC) loopHeader(li *LoopInfo, reach Term, entrySt *State, entryPhi map[
 	for name := range mod {
 		vc.havocHeap(st, name)
 	}
+	if !mod["*"] {
+		a0 := vc.allocGet(vc.entry)
+		for name := range vc.loopFrameFacts(li) {
+			sort, ok := vc.heapSort[name]
+			if !ok || !mod[name] {
+				continue
+			}
+			oldH, newH := vc.heapGet(entrySt, name, sort), vc.heapGet(st, name, sort)
+			if oldH == newH {
+				continue
+			}
+			r := vc.freshName("r")
+			vc.quantCtx = true
+			vc.addAssume(reach, "(forall (("+r+" Int)) (! (=> (and (<= 0 "+r+") (< "+r+" "+a0+")) (= (select "+newH+" "+r+") (select "+oldH+" "+r+"))) :pattern ((select "+newH+" "+r+"))))")
+			vc.assume("inferred loop frame (checked syntactically): every write into " + name + " inside the loop goes through memory allocated by this activation, so objects that existed at function entry are unchanged")
+		}
+	}
 	li.havocPhi = map[*ssa.Phi]Val{}
 	for _, in := range b.Instrs {
 		phi, ok := in.(*ssa.Phi)
@@ -464,6 +481,11 @@ func (vc *VC) loopClause(li *LoopInfo, cl *Clause, phiVals map[*ssa.Phi]Val, st 
 	}
 	for i, n := range names {
 		env[n] = get(li.marker.Call.Args[i+1])
+	}
+	// `rangeidx`: the hidden index of a `for range` loop over a slice/array/int (the element the
+	// next iteration will look at; equals the length on exit)
+	if inc := vc.rangeIndexInc(li); inc != nil {
+		env["verif_rangeidx"] = get(inc)
 	}
 	return vc.clauseTerm(vc.fi, cl, env, nil, st, vc.entry)
 }
